@@ -34,7 +34,9 @@ Definition legal (a b : tstate) : bool := tstate_eqb a b || (negb (completed a) 
 (* allowed change of one stored trial by one call *)
 Definition trans_ok (t t' : trial) : Prop :=
   t_id t' = t_id t /\ t_params t' = t_params t /\ legal (t_state t) (t_state t') = true /\
-  (completed (t_state t) = true -> t_state t' = t_state t /\ t_meas t' = t_meas t /\ t_final t' = t_final t).
+  (completed (t_state t) = true -> t_state t' = t_state t /\ t_meas t' = t_meas t /\ t_final t' = t_final t) /\
+  (* ownership: only a queued (REQUESTED) trial can be given to a worker; afterwards the owner never changes *)
+  (t_state t <> REQUESTED -> t_client t' = t_client t).
 
 (* which study a call addresses, which RPCs mutate *)
 Definition rpc_key (r : rpc) : option skey :=
